@@ -375,6 +375,7 @@ func (c *Collection) itemSlice(readConfig *ReadRequest) []idItem {
 }
 
 func (c *Collection) genID() (string, error) {
+	simhook.BeforeMutex("collection.genid", &c.rngMu)
 	c.rngMu.Lock()
 	defer c.rngMu.Unlock()
 	return GenerateUniqueId(c.rng, func(candidate string) bool {
